@@ -67,17 +67,27 @@ fn gen_node(cst: &Cst<'_>, node_ref: NodeRef, items: &mut PrintItems) {
             match token {
                 Token::LineComment | Token::DocComment => {
                     space_before_comment(cst, &span, items, false);
-                    items.push_string(txt[..txt.len() - 1].to_string());
+                    push_text(&txt[..txt.len() - 1], items);
                     items.push_signal(Signal::ExpectNewLine);
                 }
                 Token::BlockComment => {
                     space_before_comment(cst, &span, items, false);
-                    items.push_string(txt.to_string());
+                    push_text(txt, items);
                 }
                 Token::Whitespace => {}
-                _ => items.push_string(txt.to_string()),
+                _ => push_text(txt, items),
             }
         }
+    }
+}
+
+/// Pushes source text that may contain tabs or newlines (comments, strings and
+/// invalid tokens), which must not be part of a printer string.
+fn push_text(txt: &str, items: &mut PrintItems) {
+    if txt.contains(['\t', '\n']) {
+        items.extend(ir_helpers::gen_from_raw_string(txt));
+    } else {
+        items.push_string(txt.to_string());
     }
 }
 
@@ -260,7 +270,7 @@ fn gen_file(cst: &Cst<'_>, node_ref: NodeRef, items: &mut PrintItems) {
                 let span = cst.span(child_node_ref);
                 let txt = cst.span_text(idx);
                 space_before_comment(cst, &span, items, true);
-                items.push_string(txt[..txt.len() - 1].to_string());
+                push_text(&txt[..txt.len() - 1], items);
                 items.push_signal(Signal::NewLine);
                 line_start = true;
             }
@@ -268,7 +278,7 @@ fn gen_file(cst: &Cst<'_>, node_ref: NodeRef, items: &mut PrintItems) {
                 let span = cst.span(child_node_ref);
                 let txt = cst.span_text(idx);
                 space_before_comment(cst, &span, items, true);
-                items.push_string(txt.to_string());
+                push_text(txt, items);
                 items.push_signal(Signal::SpaceIfNotTrailing);
             }
             Node::Token(Token::Whitespace, idx) => {
